@@ -10,6 +10,7 @@ import DimodProofs.HeaderContracts
 import DimodProofs.ZipEnd
 import DimodProofs.CqmDirs
 import DimodProofs.CqmClosed
+import DimodProofs.ZipTrunc
 import DimodProofs.DqmClosed
 import DimodProofs.CqmDomain
 
@@ -711,5 +712,25 @@ example : (∀ m ∈ dqmMembers exDqm, m.okB = true) ∧ (∀ m ∈ dqmMembers e
 
 example : DqmWF exDqm := by
   constructor <;> simp [exDqm, exF8, LowerOK, startsBad] <;> decide
+
+/-! ## round 8: the repaired CQM loader (`_open_archive` compares the local headers with the directory) loses no valid file -/
+
+/-- **the round-8 repair refuses no written file and changes no loaded model**: on the complete bytes `to_file` writes, the
+    modelled `from_file` with the repaired opener (`cqmFileLoadTiled`: `read_header`, version test, `_open_archive` at the
+    position the header reader stopped at — end-record search, directory loop, walk over the local headers comparing
+    signature, name and recorded size with the directory, `pos == start_dir` —, members, decoding, header check) returns
+    exactly what the loader of `cqm_file_roundtrip_closed` returns; so `load (dump cqm) = some cqm` holds for the loader
+    dimod has now.  Needed of the members beyond `ZEntry.OK`: each local header records the size of its data (`LocalOK`:
+    directly, or `0xFFFFFFFF` + zip64 extra for the members written with `force_zip64=True`; evaluated by the driver on the
+    archive of every generated file, op `ziplocalok`). -/
+theorem cqm_file_roundtrip_repaired_loader (crc32 : Bytes → Nat) (inflate : Bytes → Option Bytes) (deflate : Option (Bytes → Bytes))
+    (μ : Nat → ZMeta) (s : CqmSrc) (hlen : (dumpsDict (cqmCountsDict (cqmCounts s.content.erase))).length + 65 < 2 ^ 32)
+    (hz : ∀ z ∈ mkEntries crc32 deflate μ 0 (cqmMembers 4 s.content), z.OK crc32 inflate)
+    (hl : ∀ z ∈ mkEntries crc32 deflate μ 0 (cqmMembers 4 s.content), z.LocalOK)
+    (hcount : (mkEntries crc32 deflate μ 0 (cqmMembers 4 s.content)).length < 256 ^ 2)
+    (hsize : (dumpCqm crc32 deflate μ s).length < 4294967295) :
+    cqmFileLoadTiled true 8 parseCqmHeader crc32 inflate parseExprHeader (fun d => (loadsJ d).isSome) (dumpCqm crc32 deflate μ s) =
+      loadCqm crc32 inflate (dumpCqm crc32 deflate μ s) :=
+  cqmFileLoadTiled_full_eq crc32 inflate deflate μ s hlen hz hl hcount hsize
 
 end C09
